@@ -476,6 +476,9 @@ def check(rep):
                        'held-query monitor on users[] digests; then model/implementation diff per history and event on the '
                        'corpus and every %d-th targeted / %d-th generic history. '
                        'distinct_nontrivial = answers that were emitted in a later event than their query arrived (held queries)' % (m_tgt, m_gen))
+    if 'srv' in ctx.exe:
+        # the sweeps and the order of handlers of the REAL select loop (not the harness' copy of the sweep)
+        srvlib.loop_glue(rep, ctx, ctx.exe['srv'], 100 if quick else 1500, 'c14srvloop')
     st = collections.Counter()
     gstats, tstats = {}, {}
     dist = dict(corpus=len(corpus), targeted=0, generic=0, events_per_history=nev, batches=nbatch)
